@@ -224,6 +224,6 @@ TRUSTED_TEXT = {
     'T1': "rustc's derived PartialEq/Clone on the extracted types behave as spec `ueq` / identity (assume_specification + PartialEqSpecImpl)",
     'T2': 'vstd specifications of Vec, Rc, Box, Option, String, slices; axioms added where vstd has none are listed individually',
     'T3': 'assumed specifications for std string/char primitives (listed individually)',
-    'T4': 'extractor rewrite rules R1-R13 (syntactic; counts per rule reported in coverage.rewrites)',
+    'T4': 'extractor rewrite rules R1-R14 (syntactic; counts per rule reported in coverage.rewrites)',
     'T5': 'Verus 0.2026.09.13 + its Z3; rustc front end',
 }
